@@ -125,6 +125,39 @@ def register(name):
     return deco
 
 
+def mk_db(recs_req, recs_resp):
+    """Database object holding the given TCPRecord lists (function-level construction)"""
+    p = P()
+    db = p["Database"]()
+    db.create(p["TCPRecord"], p["Direction"].CLIENT_TO_SERVER)
+    db.create(p["TCPRecord"], p["Direction"].SERVER_TO_CLIENT)
+    for d, recs in ((p["Direction"].CLIENT_TO_SERVER, recs_req), (p["Direction"].SERVER_TO_CLIENT, recs_resp)):
+        for r in recs:
+            db.add(r, d)
+    return db
+
+
+def op_find(f):
+    p = P()
+    is_syn = f[1] == "1"
+    k = mk_pktsig(f, 3)
+    nreq, nresp = int(f[16]), int(f[17])
+    recs = []
+    for i in range(nreq + nresp):
+        o = 18 + 14 * i
+        label = p["Label"](name="n", is_generic=f[o] == "1", os_class="!" if f[o + 1] == "1" else "unix", flavor="")
+        recs.append(p["TCPRecord"](label=label, signature=mk_sig(f, o + 2), raw_signature="", line_number=i + 1))
+    db = mk_db(recs[:nreq], recs[nreq:])
+    opts = p["Options"](database=db, max_dist=int(f[2]))
+    d = p["Direction"].CLIENT_TO_SERVER if is_syn else p["Direction"].SERVER_TO_CLIENT
+    m = p["FT"].find_tcp_match(k, d, opts)
+    res = p["R"].TCPResult(None, k, m)
+    if m is None:
+        return f"none {res.distance}"
+    return f"{m.record.line_number} {mt_str(m.type)} {res.distance}"
+
+
+OPS["find"] = op_find
 OPS["match"] = op_match
 OPS["wmult"] = op_wmult
 
